@@ -205,6 +205,9 @@ class Ctx:
                 self.tie_failures.append('correspondence %s could not be run: harness unit %s does not compile against this tree (%s)' % (name, sorted(res['unavailable']), why[:300]))
             self.components[name] = {'cases': res['n'], 'compared_tokens': 0, 'mismatches': 0, 'crashes': 0, 'compared': 'UNAVAILABLE'}
             return None
+        if res.get('degraded'):
+            self.extra.setdefault('advisory', []).append({'component': name, 'what': 'run in degraded mode: %s (the private-access unit of the harness does not compile against this tree)' % sorted(res['degraded'])})
+            self.notes.append('ADVISORY component %s degraded: %s' % (name, sorted(res['degraded'])))
         if not verdict:
             self.extra.setdefault('diagnostics', {})[name] = {'cases': res['n'], 'compared_tokens': res['compared_tokens'],
                                                                'mismatches': len(res['mismatches']), 'crashes': len(res['crashes']),
